@@ -9,6 +9,7 @@ import (
 	"sort"
 	"strconv"
 	"strings"
+	"sync/atomic"
 
 	"go.opentelemetry.io/otel/attribute"
 )
@@ -162,62 +163,170 @@ func atomToI(a string) int64 {
 	return n
 }
 
-// concreteValue builds the real Value for an abstract one. variant selects among the
-// equivalent public constructors (Int vs Int64, IntSlice vs Int64Slice, nil vs empty slice).
-func concreteValue(t string, x []string, variant int) attribute.Value {
+// ---- constructor routes.  One abstract typed value can be written through several public
+// constructors (attribute.X(k, v), Key(k).X(v), KeyValue{k, XValue(v)}; Int vs Int64, IntSlice vs
+// Int64Slice, Stringer vs String; nil / empty / zero-length-resliced / spare-capacity slices).
+// All of them denote the SAME value of the model; the route is a dimension of the concretization.
+
+type stringerOf string
+
+func (s stringerOf) String() string { return string(s) }
+
+// nForms: value forms per type (times 3 key-value routes; STRING has Stringer as one more route).
+func nForms(t string) int {
+	switch t {
+	case "i64":
+		return 2 // int64, int
+	case "bools", "f64s", "strs":
+		return 3 // slice forms
+	case "i64s":
+		return 6 // slice forms x {[]int64, []int}
+	}
+	return 1
+}
+
+// nRoutes is the number of constructor routes of a type (NRoutes in AttrSet.tla comes from here).
+func nRoutes(t string) int {
+	n := 3 * nForms(t)
+	if t == "str" {
+		n++
+	}
+	return n
+}
+
+var routeTypes = []string{"bool", "i64", "f64", "str", "bools", "i64s", "f64s", "strs"}
+
+// sliceForm lays the elements out in one of three ways and returns the slice to pass plus the
+// whole backing array (scribbled over after the constructor returned: constructors copy).
+//
+//	form 0: exact slice (nil when empty)   form 1: empty literal / fresh copy with equal cap
+//	form 2: a re-slice of a longer array (x[:0] when empty, spare capacity otherwise)
+func sliceForm[T any](elems []T, form int, junk T) (arg, backing []T) {
+	switch form % 3 {
+	case 0:
+		if len(elems) == 0 {
+			return nil, nil
+		}
+		a := append([]T{}, elems...)
+		return a, a
+	case 1:
+		a := make([]T, len(elems))
+		copy(a, elems)
+		return a, a
+	}
+	b := make([]T, len(elems)+3)
+	copy(b, elems)
+	for i := len(elems); i < len(b); i++ {
+		b[i] = junk
+	}
+	return b[:len(elems)], b
+}
+
+func scribbleAll[T any](b []T, junk T) {
+	for i := range b {
+		b[i] = junk
+	}
+}
+
+// buildKV writes the abstract value (t, x) under key k through constructor route r (0-based,
+// taken modulo nRoutes(t)).
+func buildKV(k attribute.Key, t string, x []string, r int) attribute.KeyValue {
+	if r < 0 {
+		r = -r
+	}
+	r %= nRoutes(t)
+	if t == "str" && r == 3*nForms(t) {
+		return attribute.Stringer(string(k), stringerOf(x[0]))
+	}
+	kvr, form := r%3, r/3
+	// wrap picks the key-value route given the three spellings
+	wrap := func(pkg func() attribute.KeyValue, key func() attribute.KeyValue, val func() attribute.Value) attribute.KeyValue {
+		switch kvr {
+		case 0:
+			return pkg()
+		case 1:
+			return key()
+		}
+		return attribute.KeyValue{Key: k, Value: val()}
+	}
+	ks := string(k)
 	switch t {
 	case "bool":
-		return attribute.BoolValue(x[0] == "T")
+		v := x[0] == "T"
+		return wrap(func() attribute.KeyValue { return attribute.Bool(ks, v) }, func() attribute.KeyValue { return k.Bool(v) },
+			func() attribute.Value { return attribute.BoolValue(v) })
 	case "i64":
-		if variant%2 == 1 && strconv.IntSize == 64 {
-			return attribute.IntValue(int(atomToI(x[0])))
+		v := atomToI(x[0])
+		if form == 1 && strconv.IntSize == 64 {
+			return wrap(func() attribute.KeyValue { return attribute.Int(ks, int(v)) }, func() attribute.KeyValue { return k.Int(int(v)) },
+				func() attribute.Value { return attribute.IntValue(int(v)) })
 		}
-		return attribute.Int64Value(atomToI(x[0]))
+		return wrap(func() attribute.KeyValue { return attribute.Int64(ks, v) }, func() attribute.KeyValue { return k.Int64(v) },
+			func() attribute.Value { return attribute.Int64Value(v) })
 	case "f64":
-		return attribute.Float64Value(atomToF(x[0]))
+		v := atomToF(x[0])
+		return wrap(func() attribute.KeyValue { return attribute.Float64(ks, v) }, func() attribute.KeyValue { return k.Float64(v) },
+			func() attribute.Value { return attribute.Float64Value(v) })
 	case "str":
-		return attribute.StringValue(x[0])
+		v := x[0]
+		return wrap(func() attribute.KeyValue { return attribute.String(ks, v) }, func() attribute.KeyValue { return k.String(v) },
+			func() attribute.Value { return attribute.StringValue(v) })
 	case "bools":
-		if len(x) == 0 && variant%2 == 1 {
-			return attribute.BoolSliceValue(nil)
-		}
-		v := make([]bool, len(x))
+		el := make([]bool, len(x))
 		for i, a := range x {
-			v[i] = a == "T"
+			el[i] = a == "T"
 		}
-		return attribute.BoolSliceValue(v)
+		arg, back := sliceForm(el, form, true)
+		kv := wrap(func() attribute.KeyValue { return attribute.BoolSlice(ks, arg) }, func() attribute.KeyValue { return k.BoolSlice(arg) },
+			func() attribute.Value { return attribute.BoolSliceValue(arg) })
+		for i := range back {
+			back[i] = !back[i]
+		}
+		return kv
 	case "i64s":
-		if len(x) == 0 && variant%2 == 1 {
-			return attribute.Int64SliceValue(nil)
-		}
-		if variant%3 == 2 && strconv.IntSize == 64 {
-			v := make([]int, len(x))
+		if form >= 3 && strconv.IntSize == 64 {
+			el := make([]int, len(x))
 			for i, a := range x {
-				v[i] = int(atomToI(a))
+				el[i] = int(atomToI(a))
 			}
-			return attribute.IntSliceValue(v)
+			arg, back := sliceForm(el, form, 77)
+			kv := wrap(func() attribute.KeyValue { return attribute.IntSlice(ks, arg) }, func() attribute.KeyValue { return k.IntSlice(arg) },
+				func() attribute.Value { return attribute.IntSliceValue(arg) })
+			scribbleAll(back, -4242)
+			return kv
 		}
-		v := make([]int64, len(x))
+		el := make([]int64, len(x))
 		for i, a := range x {
-			v[i] = atomToI(a)
+			el[i] = atomToI(a)
 		}
-		return attribute.Int64SliceValue(v)
+		arg, back := sliceForm(el, form, 77)
+		kv := wrap(func() attribute.KeyValue { return attribute.Int64Slice(ks, arg) }, func() attribute.KeyValue { return k.Int64Slice(arg) },
+			func() attribute.Value { return attribute.Int64SliceValue(arg) })
+		scribbleAll(back, -4242)
+		return kv
 	case "f64s":
-		if len(x) == 0 && variant%2 == 1 {
-			return attribute.Float64SliceValue(nil)
-		}
-		v := make([]float64, len(x))
+		el := make([]float64, len(x))
 		for i, a := range x {
-			v[i] = atomToF(a)
+			el[i] = atomToF(a)
 		}
-		return attribute.Float64SliceValue(v)
+		arg, back := sliceForm(el, form, 7.5)
+		kv := wrap(func() attribute.KeyValue { return attribute.Float64Slice(ks, arg) }, func() attribute.KeyValue { return k.Float64Slice(arg) },
+			func() attribute.Value { return attribute.Float64SliceValue(arg) })
+		scribbleAll(back, -42.42)
+		return kv
 	case "strs":
-		if len(x) == 0 && variant%2 == 1 {
-			return attribute.StringSliceValue(nil)
-		}
-		return attribute.StringSliceValue(append([]string{}, x...))
+		arg, back := sliceForm(append([]string{}, x...), form, "~junk")
+		kv := wrap(func() attribute.KeyValue { return attribute.StringSlice(ks, arg) }, func() attribute.KeyValue { return k.StringSlice(arg) },
+			func() attribute.Value { return attribute.StringSliceValue(arg) })
+		scribbleAll(back, "~scribbled")
+		return kv
 	}
 	panic("unknown abstract type " + t)
+}
+
+// concreteValue builds the free-standing real Value for an abstract one (plain XValue route).
+func concreteValue(t string, x []string, _ int) attribute.Value {
+	return buildKV("", t, x, 2).Value
 }
 
 // abstractValue projects a real Value through its public accessors.
@@ -266,6 +375,7 @@ func abstractValue(v attribute.Value) (string, []string) {
 type keyMap struct {
 	keys []string // rank-1 -> key
 	rank map[string]int
+	fvar int64 // filters constructed so far (selects how the caller's key buffer is overwritten)
 }
 
 func newKeyMap(keys []string) *keyMap {
@@ -288,8 +398,9 @@ func (m *keyMap) key(rank int) attribute.Key {
 	return attribute.Key(m.keys[rank-1])
 }
 
+// concrete writes an abstract attribute through the constructor route chosen by variant.
 func (m *keyMap) concrete(a AAttr, variant int) attribute.KeyValue {
-	return attribute.KeyValue{Key: m.key(a.K), Value: concreteValue(a.T, a.X, variant)}
+	return buildKV(m.key(a.K), a.T, a.X, variant)
 }
 
 func (m *keyMap) abstract(kv attribute.KeyValue) AAttr {
@@ -319,14 +430,47 @@ func (m *keyMap) filter(p Pred) attribute.Filter {
 	case "none":
 		return func(attribute.KeyValue) bool { return false }
 	case "allow", "deny":
-		ks := make([]attribute.Key, len(p.Ks))
+		// A filter is a VALUE fixed when it is constructed.  The caller builds it from a buffer it
+		// re-uses: after the constructor returned the buffer is overwritten (other keys of the
+		// table / zeroed / shifted, spare capacity included) and only then is the filter applied.
+		v := int(atomic.AddInt64(&m.fvar, 1))
+		buf := make([]attribute.Key, len(p.Ks), len(p.Ks)+2)
+		named := map[attribute.Key]bool{}
 		for i, r := range p.Ks {
-			ks[i] = m.key(r)
+			buf[i] = m.key(r)
+			named[buf[i]] = true
 		}
+		var f attribute.Filter
 		if p.Kind == "allow" {
-			return attribute.NewAllowKeysFilter(ks...)
+			f = attribute.NewAllowKeysFilter(buf...)
+		} else {
+			f = attribute.NewDenyKeysFilter(buf...)
 		}
-		return attribute.NewDenyKeysFilter(ks...)
+		var others []attribute.Key // keys of the table the filter does NOT name
+		for _, k := range m.keys {
+			if !named[attribute.Key(k)] {
+				others = append(others, attribute.Key(k))
+			}
+		}
+		others = append(others, "~other")
+		full := buf[:cap(buf)]
+		switch v % 3 {
+		case 0:
+			for i := range full {
+				full[i] = others[(i+v)%len(others)]
+			}
+		case 1:
+			for i := range full {
+				full[i] = ""
+			}
+		default:
+			copy(full, full[1:])
+			full[len(full)-1] = others[v%len(others)]
+			if len(p.Ks) > 0 {
+				full[0] = others[(v+1)%len(others)]
+			}
+		}
+		return f
 	case "type":
 		ts := map[string]bool{}
 		for _, t := range p.Ts {
